@@ -568,11 +568,20 @@ func (cp *ClientPromise) Fulfill(c *Client) {
 	if cp.h.calls == 0 {
 		close(cp.h.done)
 	}
-	rh = resolveHook(cp.h) // swaps mutex on cp.h for mutex on rh
-	if rh != nil {
-		rh.refs += refs
-		rh.mu.Unlock()
+	// Transfer the references while still holding cp.h.mu: if cp.h.mu were
+	// released first, another goroutine could pass through cp.h and release
+	// (or use) its reference on the target before the references arrive.
+	if rh == cp.h {
+		rh.refs += refs // resolved to itself (as before)
+	} else if rh != nil {
+		rh.mu.Lock()
+		rh = resolveHook(rh)
+		if rh != nil {
+			rh.refs += refs
+			rh.mu.Unlock()
+		}
 	}
+	cp.h.mu.Unlock()
 	<-cp.h.done
 	cp.h.Shutdown()
 }
